@@ -255,6 +255,31 @@ theorem C05_memo_garbage_ok (parse : List UInt8 → Option Memo) (file : Option 
       rw [hc] at this
       exact (Option.some.inj this).symm
 
+/-- **C05_startup_idempotent.** Whatever database file a build finds — none, a 0-byte file, a file with any subset of the tables
+(in particular what a kill between two `CREATE TABLE`s of an earlier start-up left, `startupCrash`) — after its start-up every
+declared table exists: `create_all` runs unconditionally (`Generated.createAllUnconditional`) and creates what is missing. So a
+kill during the start-up of the very first build leaves nothing a later build does not repair, and the engine theorems above
+(which assume the tables exist) apply to every build. -/
+theorem C05_startup_idempotent (f : DbFile) : SchemaComplete Generated.dbTables (startup f) := by
+  have hu : Generated.createAllUnconditional = true := rfl
+  intro t ht
+  unfold startup startupWith
+  rw [hu]
+  have key : ∀ h : List String, t ∈ createAll Generated.dbTables h := by
+    intro h
+    unfold createAll startupSteps
+    by_cases hin : t ∈ h
+    · exact List.mem_append_left _ hin
+    · exact List.mem_append_right _ (List.mem_filter.2 ⟨ht, by simpa using hin⟩)
+  cases f with
+  | none => exact key []
+  | some h => simpa using key h
+
+/-- … in particular after a kill at any point `k` of an earlier start-up, from any earlier file state -/
+theorem C05_startup_after_kill (f0 : DbFile) (k : Nat) :
+    SchemaComplete Generated.dbTables (startup (startupCrash Generated.dbTables f0 k)) :=
+  C05_startup_idempotent _
+
 /-! ## Non-vacuity: a concrete two-task chain (`c05P`, data in `Lemmas/EngineCrash.lean`), killed at various points -/
 
 example : createDag c05P {} = .ok (c05G, []) := by rfl
@@ -306,6 +331,12 @@ example : ∀ k ∈ [0, 1, 2], (build f50F f50P {} (applyStep (crashAt f50F f50P
     (fun r => (r.reports, r.log, lookup r.w.fs 20)) = some ([(0, .success)], [0], some 1) := by decide
 example : Inv f50F f50P f50G (applyStep (crashAt f50F f50P {} f50W [0] 2) (.write 11 0)) :=
   C05_edit_after_kill f50F f50P {} f50W f50G [] [0] 2 11 0 (by rfl) f50_wfspec f50_rc (by decide)
+
+/-- start-up: a first build killed after `CREATE TABLE state` (the first of the two statements) leaves a file with that table only;
+the next start-up completes the schema — whereas "create the tables only together with the file" (`uncond = false`) would not -/
+example : startupCrash Generated.dbTables none 1 = some ["state"] ∧
+    startup (startupCrash Generated.dbTables none 1) = ["state", "runtime"] ∧
+    startupWith false Generated.dbTables (startupCrash Generated.dbTables none 1) = ["state"] := by decide
 
 /-- garbage in the memo file loads as the empty memo -/
 example : loadMemo (fun _ => none) (some [0xff, 0xfe]) = some [] := by decide
